@@ -11,16 +11,79 @@ import json
 
 import core
 import mboxx
+import world as W
 from props.c01 import report_diffs, _mix
 
 MIX = {"fetch": 16, "expunge": 10, "move": 6, "copy": 5, "append": 8, "deliver": 6, "poll": 7, "restart": 2,
        "store": 8, "select": 6, "noop": 4, "close": 2, "idle": 1, "search": 1, "check": 1, "unselect": 1}
 
 
+def delivery_before_pack(ctx):
+    """An MH tool is another process: it can drop a message into the folder after the management task's resync and before
+    its pack (the task holds no folder lock in between).  The server must not renumber a file it has not taken in: after
+    the pack (or the pack it declined) and one more delivery, every UID still names the message it named before."""
+    import re
+    from asimap.mbox import Mailbox
+
+    def view(w, box):
+        mb = w.server.active_mailboxes[box]
+        out = {}
+        for uid, key in zip(mb.uids, mb.msg_keys):
+            m = re.search(rb"Message-ID: <(\d+)@verif>", (w.root / box / str(key)).read_bytes())
+            out[uid] = int(m.group(1)) if m else None
+        return out, mb.next_uid
+
+    n = 0
+    for total in ((8, 12) if ctx.thorough else (8,)):
+        for unseen in (True, False):
+            w = W.World(seed=ctx.rng.randrange(1 << 30), pack_limits=(4, 0.8))
+            injected = []
+            orig = Mailbox._pack_if_necessary
+            try:
+                w.session("A")
+                w.deliver("inbox", total, unseen=True)
+                w.cmd("A", "a SELECT inbox")
+                w.cmd("A", f"a STORE 2:{total - 3} +FLAGS.SILENT (\\Deleted)")
+
+                async def wrapped(self, _orig=orig):
+                    if not injected and self.name == "inbox" and self.num_msgs < total:
+                        injected.extend(w.deliver("inbox", 1, unseen=unseen, bump=False))
+                    return await _orig(self)
+                Mailbox._pack_if_necessary = wrapped
+                w.cmd("A", "a EXPUNGE")
+                before, nxt0 = view(w, "inbox")
+                w.cmd("A", "a UNSELECT")
+                for _ in range(3):
+                    w.settle(25)
+                Mailbox._pack_if_necessary = orig
+                if not injected:
+                    continue
+                w.bump_mtime("inbox")
+                w.settle(25)
+                w.deliver("inbox", 1, unseen=True)
+                w.settle(25)
+                w.cmd("A", "a SELECT inbox")
+                after, nxt1 = view(w, "inbox")
+                n += 1
+                ctx.count({"delivery_between_resync_and_pack": total, "unseen": unseen}, nontrivial=True)
+                moved = {u: (before[u], after.get(u)) for u in before if after.get(u) != before[u]}
+                cids = sorted(c for c in after.values() if c is not None)
+                if moved or nxt1 < nxt0 or len(after) != len(before) + 2 or len(set(cids)) != len(cids):
+                    ctx.violation("a delivery between the management task's resync and its pack: afterwards a UID names another "
+                                  f"message or a message is missing: {moved or (sorted(before), sorted(after))}",
+                                  {"messages_delivered_first": total, "uid_to_message_before": before, "uid_to_message_after": after,
+                                   "uidnext": [nxt0, nxt1], "injected_message_number": injected})
+            finally:
+                Mailbox._pack_if_necessary = orig
+                w.close()
+    ctx.extra["delivery_before_pack_cases"] = n
+
+
 def run(ctx):
     ctx.coverage["rule"] = ("histories of 45/70 commands (1-3 sessions, two mailboxes) biased to body fetches by UID and by "
                             "number, expunges/moves of arbitrary subsets, deliveries, polls with packing at 4 messages, "
-                            "restarts; non-trivial = a body fetch happened after an expunge or a pack in that history")
+                            "restarts; non-trivial = a body fetch happened after an expunge or a pack in that history. Plus: a delivery injected "
+                            "between the management task's resync and its pack of a sparse folder, then one more delivery")
     ok = ctx.prove("Properties/C03.v")
     n = 400 if ctx.thorough else 64
     hs = mboxx.generate(ctx, n, 70 if ctx.thorough else 45, mix=MIX, pack=(4, 4, 5))
@@ -41,6 +104,7 @@ def run(ctx):
             ctx.violation("UID/content binding violated on the implementation: " + d,
                           {"seed": h.seed, "step": k, "ops_up_to_step": [repr(o) for o in h.ops[:k + 1]],
                            "snapshot_after": h.snaps[k][1]["boxes"] if h.snaps[k][1] else None})
+    delivery_before_pack(ctx)
     ctx.coq.build(["Model/MboxCmp.vo"])
     bad, _ = mboxx.compare(ctx, "c03", hs)
     report_diffs(ctx, "C03", hs, bad, "model (proved) and implementation disagree (content / internal date / UID of a fetch)")
